@@ -492,3 +492,269 @@ def _prng(w, o):
 
 class LibraryRaised(LibRaise):
     pass
+
+
+# --------------------------------------------------------------------------
+# emulator objects: sources, detectors, post-selection
+
+
+@op("new_source")
+def _new_source(w, o):
+    s = w.call(emu.Source, purity=o.get("purity", 1),
+               brightness=o.get("brightness", 1),
+               indistinguishability=o.get("indist", 1),
+               probability_threshold=o.get("thr", 0))
+    w.put("src", o["out"], s)
+
+
+@op("src_set")
+def _src_set(w, o):
+    s = w.get("src", o["src"])
+    w.call(setattr, s, o["attr"], o["value"])
+
+
+@op("new_detector")
+def _new_detector(w, o):
+    d = w.call(emu.Detector, efficiency=o.get("eff", 1),
+               p_dark=o.get("p_dark", 0),
+               photon_counting=o.get("pnr", True))
+    w.put("det", o["out"], d)
+
+
+@op("det_set")
+def _det_set(w, o):
+    d = w.get("det", o["det"])
+    w.call(setattr, d, o["attr"], o["value"])
+
+
+PREDICATES = {
+    "max1": lambda s: max(s) <= 1 if len(s) else True,
+    "even": lambda s: s.n_photons % 2 == 0,
+    "m0_lt2": lambda s: (s[0] < 2) if len(s) else True,
+    "some": lambda s: s.n_photons >= 1,
+    "m0_zero": lambda s: (s[0] == 0) if len(s) else True,
+    "all": lambda s: True,
+}
+
+
+class PredicateFault(Exception):
+    """Injected failure of a user predicate (F-callback)."""
+
+
+def make_predicate(w, name: str, ctl: dict):
+    base = PREDICATES[name]
+
+    def predicate(state):
+        if w.extra.get("fresh_mode"):
+            return base(state)   # oracle-side evaluation: never faulted
+        ctl["calls"] += 1
+        if ctl["fail_at"] is not None and ctl["calls"] >= ctl["fail_at"]:
+            ctl["fail_at"] = None
+            ctl["fired"] += 1
+            w.stats["fault:predicate_raised"] += 1
+            w.extra["pred_fault_fired"] = True
+            raise PredicateFault("injected predicate failure")
+        return base(state)
+    return predicate
+
+
+@op("new_postsel")
+def _new_postsel(w, o):
+    if o["kind"] == "rules":
+        ps = w.call(lw.PostSelection, o.get("multi", False))
+        for modes, ns in o.get("rules", []):
+            w.call(ps.add, tuple(modes), tuple(ns))
+        w.put("ps", o["out"], ps, pkind="rules")
+    else:
+        ctl = {"calls": 0, "fail_at": None, "fired": 0}
+        fn = make_predicate(w, o["pred"], ctl)
+        w.put("ps", o["out"], fn, pkind="pred", ctl=ctl, pred=o["pred"])
+
+
+@op("ps_add")
+def _ps_add(w, o):
+    ps = w.get("ps", o["ps"])
+    if w.m("ps", o["ps"])["pkind"] != "rules":
+        raise Skip("not a rule set")
+    m, n = o["modes"], o["n"]
+    w.call(ps.add, tuple(m) if isinstance(m, list) else m,
+           tuple(n) if isinstance(n, list) else n)
+
+
+@op("pred_fault")
+def _pred_fault(w, o):
+    """Arm the predicate to raise at its k-th evaluation from now."""
+    w.get("ps", o["ps"])
+    m = w.m("ps", o["ps"])
+    if m["pkind"] != "pred":
+        raise Skip("not a predicate")
+    m["ctl"]["fail_at"] = m["ctl"]["calls"] + o.get("k", 1)
+    w.stats["fault:predicate_armed"] += 1
+
+
+def _psobj(w, ref):
+    return None if ref is None else w.get("ps", ref)
+
+
+# --------------------------------------------------------------------------
+# long-lived consumers
+
+
+def _hold(w, cid):
+    if cid is not None and w.has("c", cid):
+        w.m("c", cid)["held"] = True
+
+
+@op("new_sampler")
+def _new_sampler(w, o):
+    c = w.get("c", o["c"])
+    st = w.call(lw.State, list(o["state"]))
+    src = None if o.get("src") is None else w.get("src", o["src"])
+    det = None if o.get("det") is None else w.get("det", o["det"])
+    s = w.call(emu.Sampler, c, st, src, det, o.get("backend"))
+    w.put("sam", o["out"], s, circuit=o["c"], src=o.get("src"),
+          det=o.get("det"), state="new")
+    _hold(w, o["c"])
+
+
+@op("new_quick")
+def _new_quick(w, o):
+    c = w.get("c", o["c"])
+    st = w.call(lw.State, list(o["state"]))
+    ps = _psobj(w, o.get("ps"))
+    q = w.call(emu.QuickSampler, c, st, o.get("pnr", True), ps)
+    w.put("qs", o["out"], q, circuit=o["c"], ps=o.get("ps"), state="new")
+    _hold(w, o["c"])
+
+
+@op("new_analyzer")
+def _new_analyzer(w, o):
+    c = w.get("c", o["c"])
+    a = w.call(emu.Analyzer, c)
+    w.put("an", o["out"], a, circuit=o["c"], ps=None, state="new")
+    _hold(w, o["c"])
+
+
+@op("cons_set")
+def _cons_set(w, o):
+    kind = o["kind"]
+    s = w.get(kind, o["s"])
+    attr = o["attr"]
+    meta = w.m(kind, o["s"])
+    if attr == "circuit":
+        v = w.get("c", o["ref"]) if o.get("ref") is not None else o.get("value")
+    elif attr == "input_state":
+        v = w.call(lw.State, list(o["value"])) if isinstance(o.get("value"), list) else o.get("value")
+    elif attr == "source":
+        v = w.get("src", o["ref"]) if o.get("ref") is not None else o.get("value")
+    elif attr == "detector":
+        v = w.get("det", o["ref"]) if o.get("ref") is not None else o.get("value")
+    elif attr in ("post_select", "post_selection"):
+        v = w.get("ps", o["ref"]) if o.get("ref") is not None else o.get("value")
+    else:
+        v = o.get("value")
+    w.call(setattr, s, attr, v)
+    if attr == "circuit" and o.get("ref") is not None:
+        meta["circuit"] = o["ref"]
+        _hold(w, o["ref"])
+    if attr in ("post_select", "post_selection"):
+        meta["ps"] = o.get("ref")
+    if attr == "source":
+        meta["src"] = o.get("ref")
+    if attr == "detector":
+        meta["det"] = o.get("ref")
+
+
+def dist_summary(d: dict) -> list:
+    return sorted((str(k), round(float(v), 12)) for k, v in d.items())
+
+
+def result_summary(r) -> list:
+    return sorted((str(k), int(v)) for k, v in r.items())
+
+
+@op("read_dist")
+def _read_dist(w, o):
+    s = w.get(o["kind"], o["s"])
+    m = w.m(o["kind"], o["s"])
+    w.extra["last_result"] = None
+    try:
+        d = w.call(lambda: s.probability_distribution)
+    except LibRaise:
+        m["state"] = "read_failed"
+        raise
+    m["state"] = "read"
+    w.extra["last_result"] = dict(d)
+    return len(d)
+
+
+@op("sample")
+def _sample(w, o):
+    from . import seams  # noqa: PLC0415
+
+    s = w.get(o["kind"], o["s"])
+    seams.set_stream(w, o["stream"])
+    if o.get("script") is not None:
+        seams.script_draws(w, o["script"])
+    w.extra["last_result"] = None
+    try:
+        st = w.call(s.sample)
+    finally:
+        seams.script_draws(w, [])
+    w.extra["last_result"] = st
+    w.m(o["kind"], o["s"])["state"] = "sampled"
+    return str(st)
+
+
+def _sample_n(w, o, method):
+    s = w.get("sam", o["s"])
+    ps = _psobj(w, o.get("ps"))
+    w.extra["last_result"] = None
+    w.extra["pred_fault_fired"] = False
+    kw = {"post_select": ps, "min_detection": o.get("md", 0)}
+    if "seed" in o:
+        kw["seed"] = o["seed"]
+    r = w.call(getattr(s, method), o["n"], **kw)
+    w.extra["last_result"] = r
+    w.m("sam", o["s"])["state"] = "sampled"
+    return result_summary(r)
+
+
+@op("sample_n_inputs")
+def _sample_n_inputs(w, o):
+    return _sample_n(w, o, "sample_N_inputs")
+
+
+@op("sample_n_outputs")
+def _sample_n_outputs(w, o):
+    return _sample_n(w, o, "sample_N_outputs")
+
+
+@op("quick_n_outputs")
+def _quick_n_outputs(w, o):
+    q = w.get("qs", o["s"])
+    w.extra["last_result"] = None
+    w.extra["pred_fault_fired"] = False
+    kw = {}
+    if "seed" in o:
+        kw["seed"] = o["seed"]
+    r = w.call(q.sample_N_outputs, o["n"], **kw)
+    w.extra["last_result"] = r
+    w.m("qs", o["s"])["state"] = "sampled"
+    return result_summary(r)
+
+
+@op("analyze")
+def _analyze(w, o):
+    a = w.get("an", o["s"])
+    ins = [lw.State(list(s)) for s in o["inputs"]]
+    exp = None
+    if o.get("expected") is not None:
+        exp = {lw.State(list(k)): [lw.State(list(x)) for x in v]
+               for k, v in o["expected"]}
+    w.extra["last_result"] = None
+    w.extra["pred_fault_fired"] = False
+    r = w.call(a.analyze, ins if len(ins) > 1 else ins[0], exp)
+    w.extra["last_result"] = r
+    w.m("an", o["s"])["state"] = "analyzed"
+    return [list(r.array.shape), round(float(r.performance), 12)]
